@@ -134,10 +134,10 @@ PROPS = {
     'C04': dict(
         level='exploration',
         verus=['mask', 'mask_parser'], kani_quick=[], kani_thorough=[],
-        rac=['prose_offsets'],
+        rac=['prose_offsets', 'lhs_prose_offsets'],
         unverified=[
             'BOUNDED ONLY for the front-ends themselves: tree-sitter node selection + byte_spans_to_char_spans, the comment parsers (Unit / JsDoc / JavaDoc / Go), the Markdown byte/char bookkeeping wrap external parsers and are str-byte / split / closure code; PROVED are only the composition step parsers::Mask<M,P>::parse (tokens shifted into their chunk, in order, nothing outside the allowed spans emitted as text - given the Masker and inner-Parser contracts) and the mask operations push_allowed / merge_whitespace_sep',
-            'HTML, Typst, Literate Haskell, git-commit front-ends and the other 15 tree-sitter languages are not in the prose-offset check (Typst / LHS have crash-and-order checks under C01)',
+            'HTML, Typst, git-commit front-ends and the other 15 tree-sitter languages are not in the prose-offset checks (Typst has a crash-and-order check under C01)',
             'files beyond the segment grammar of the check (3 of <=14 segments per language)',
         ],
         assumptions=['the ground truth is known by construction of the generated files (segments with declared prose words), not from a second parser',
